@@ -90,6 +90,8 @@ for _n, _p in {
     'stack': 'lambda a: np.stack((a, a))', 'hstack': 'lambda a: np.hstack((a, a))', 'tile': 'lambda a: np.tile(a, 2)',
     'pad': 'lambda a: np.pad(a, 1)', 'cumsum': 'lambda a: np.cumsum(a)', 'nonzero': 'lambda a: np.nonzero(a)',
     'array_equal': 'lambda a: np.array_equal(a, a)', 'isscalar': 'lambda a: np.isscalar(a)',
+    'full': 'lambda a: np.full(a.shape, 1.0)', 'size': 'lambda a: np.size(a)',
+    'searchsorted': 'lambda a: np.searchsorted(np.sort(a.ravel()), 0.5)', 'random.default_rng': 'lambda a: np.random.default_rng(0)',
     'ndim': 'lambda a: np.ndim(a)', 'arange': 'lambda a: np.arange(a.size)', 'ones': 'lambda a: np.ones(a.shape)', 'zeros': 'lambda a: np.zeros(a.shape)',
     'allclose': 'lambda a: np.allclose(np.sum(a), 1.0)', 'issubdtype': 'lambda a: np.issubdtype(a.dtype, np.integer)',
     'argmax': 'lambda a: np.argmax(a)', 'nanargmax': 'lambda a: np.nanargmax(a)', 'ceil': 'lambda a: np.ceil(a)',
@@ -201,6 +203,33 @@ EXT.update({
     'astropy.modeling.models.Gaussian2D': _row('fresh', 'lambda a: Gaussian2D(*a.ravel()[:5]).parameters'),
     'astropy.modeling.models.Gaussian1D.__call__': _row('fresh'),
     'scipy.ndimage.convolve': _row('fresh', 'lambda a: ndi.convolve(a.astype(float), np.ones((3,) * a.ndim))'),
+    'scipy.ndimage.zoom': _row('fresh', 'lambda a: ndi.zoom(a.astype(float), 2, order=1)'),
+    'scipy.ndimage.binary_dilation': _row('fresh', 'lambda a: ndi.binary_dilation(a > 0)'),
+    'scipy.ndimage.generic_filter': _row('fresh', 'lambda a: ndi.generic_filter(a.astype(float), np.nanmedian, size=3)'),
+    'scipy.ndimage.median_filter': _row('fresh', 'lambda a: ndi.median_filter(a.astype(float), size=3)'),
+    'scipy.ndimage.map_coordinates': _row('fresh', 'lambda a: ndi.map_coordinates(a.astype(float), np.zeros((a.ndim, 3)))'),
+    'numpy.fft.fft2': _row('fresh', 'lambda a: np.fft.fft2(a)'), 'numpy.fft.ifft2': _row('fresh', 'lambda a: np.fft.ifft2(a)'),
+    'numpy.fft.fftshift': _row('fresh', 'lambda a: np.fft.fftshift(a)'),
+    'numpy.fft.ifftshift': _row('fresh', 'lambda a: np.fft.ifftshift(a)'),
+    'copy.deepcopy': _row('fresh', 'lambda a: copy.deepcopy(a)'), 'copy.copy': _row('join', 'lambda a: copy.copy(a)'),
+    'itertools.chain.from_iterable': _row('join'), 'itertools.chain': _row('join'), 'itertools.product': _row('join'),
+    'astropy.table.vstack': _row('fresh', None), 'astropy.table.hstack': _row('fresh', None),
+    'astropy.convolution.Gaussian2DKernel': _row('fresh', 'lambda a: Gaussian2DKernel(1.0).array'),
+    'astropy.stats.gaussian_fwhm_to_sigma': _row('scalar'), 'astropy.stats.gaussian_sigma_to_fwhm': _row('scalar'),
+    'scipy.interpolate.NearestNDInterpolator': _row('join', None),
+    'scipy.interpolate.NearestNDInterpolator.__call__': _row(
+        'fresh', 'lambda a: NearestNDInterpolator(np.arange(6.).reshape(3, 2), np.arange(3.))(np.abs(a.ravel()[:4]).reshape(2, 2).astype(float))'),
+    'photutils.extern.biweight.biweight_location': _row('fresh', 'lambda a: biweight_location(a.astype(float), axis=0)'),
+    'photutils.extern.biweight.biweight_scale': _row('fresh', 'lambda a: biweight_scale(a.astype(float), axis=0)'),
+    'astropy.stats.mad_std': _row('fresh', 'lambda a: mad_std(a, axis=0)'),
+    'astropy.stats.SigmaClip': _row('scalar'),
+    'scipy.interpolate.CloughTocher2DInterpolator': _row('join', None),
+    'scipy.interpolate.CloughTocher2DInterpolator.__call__': _row(
+        'fresh', 'lambda a: CloughTocher2DInterpolator(np.array([[0., 0], [1, 0], [0, 1], [1, 1]]), np.arange(4.))(np.abs(a.ravel()[:4]).reshape(2, 2).astype(float) % 1)'),
+    'scipy.spatial.KDTree': _row('join', None),
+    'scipy.spatial.KDTree.query': _row('fresh', 'lambda a: KDTree(np.abs(a).reshape(-1, 1).astype(float)).query(np.zeros((2, 1)), k=2)'),
+    'scipy.spatial.cKDTree': _row('join', None),
+    'scipy.spatial.cKDTree.query': _row('fresh', 'lambda a: cKDTree(np.abs(a).reshape(-1, 1).astype(float)).query(np.zeros((2, 1)), k=2)'),
     'scipy.ndimage.maximum_filter': _row('fresh', 'lambda a: ndi.maximum_filter(a.astype(float), size=3)'),
     'scipy.ndimage.generate_binary_structure': _row('fresh', 'lambda a: ndi.generate_binary_structure(2, 1)'),
     'scipy.ndimage.label': _row('fresh', 'lambda a: ndi.label(a > 0)'),
@@ -245,6 +274,12 @@ SUMMARIES = {
 # the translator): hand summaries by method name, reported as assumptions, exercised by the sweep
 SUMMARY_METHODS = {
     'do_photometry': _row('fresh'), 'area_overlap': _row('fresh'), 'to_mask': _row('fresh'),
+    # ApertureMask methods (the ApertureMask life cycle is its own obligation): no write; the result
+    # may be a view of the receiver's weights or of the data argument
+    'get_values': _row('join'), '_get_overlap_cutouts': _row('join'), 'cutout': _row('join'), 'multiply': _row('fresh'),
+    # SegmentationImage.check_labels only raises
+    'check_labels': _row('scalar'), 'check_label': _row('scalar'), 'get_indices': _row('fresh'),
+    'get_index': _row('scalar'),
 }
 
 # methods on values of unknown type, by name
@@ -258,9 +293,17 @@ METHODS = {
     'clip': _row('fresh', 'lambda a: a.clip(min=0)'), 'round': _row('fresh', 'lambda a: a.round()'),
     'argsort': _row('fresh', 'lambda a: a.argsort()'), 'nonzero': _row('fresh', 'lambda a: a.nonzero()'),
     'astype': _row('fresh', 'lambda a: a.astype(a.dtype)'),              # copy=False handled in code
-    'to': _row('fresh', None), 'to_value': _row('maybe', None), 'item': _row('scalar', None),
+    'to': _row('fresh', 'lambda a: u.Quantity(a, u.Jy).to(u.mJy)'), 'to_value': _row('maybe', None), 'item': _row('scalar', None),
     'count': _row('scalar', None), 'index': _row('scalar', None), 'keys': _row('scalar', None),
     'startswith': _row('scalar', None), 'format': _row('scalar', None), 'join': _row('scalar', None),
+    'poisson': _row('fresh', 'lambda a: np.random.default_rng(0).poisson(np.abs(a))'),
+    'normal': _row('fresh', 'lambda a: np.random.default_rng(0).normal(0.0, 1.0, a.shape)'),
+    'uniform': _row('fresh', 'lambda a: np.random.default_rng(0).uniform(0.0, 1.0, a.shape)'),
+    'world_to_pixel': _row('fresh', None),
+    'choice': _row('fresh', 'lambda a: np.random.default_rng(0).choice(a.ravel(), 3)'),
+    'query': _row('fresh', 'lambda a: cKDTree(np.abs(a).reshape(-1, 1).astype(float)).query(np.zeros((2, 1)), k=2)'),
+    'normalize': _row('scalar', None, mut=('self',)),      # Kernel.normalize(): in place on the receiver
+    'represent_as': _row('fresh', 'lambda a: StdDevUncertainty(np.abs(a).astype(float)).represent_as(VarianceUncertainty).array'),
     'compressed': _row('maybe', 'lambda a: np.ma.asanyarray(a).compressed()'),
     # views
     'filled': _row('maybe', 'lambda a: np.ma.asanyarray(a).filled()'),
@@ -659,7 +702,7 @@ class Translator:
         key = f'{F.cls.key}.self.{name}'
         if key not in self.tr_attrs:
             self.tr_attrs[key] = self.newvar(key)
-            if name in self.own_attr_names:
+            if name in self.own_attr_names or (name in self.display_attrs and not self.dynamic_self_store):
                 self.own_containers = set(self.own_containers) | {self.tr_attrs[key]}
         return self.tr_attrs[key]
 
@@ -677,6 +720,8 @@ class Translator:
             return self.selfvar(F)
         kind, owner, node = F.cls.member(n.attr)
         if kind in ('lazy', None):
+            if self.dynamic_self_store:
+                return self.join(F, [self.attrvar(F, n.attr), self.selfvar(F)], 'dyn')
             return self.attrvar(F, n.attr)      # cached value / plain instance attribute
         if kind == 'property':
             return self.inline(F, owner, node, [], {}, n, cls=F.cls, selfval=True)
@@ -798,6 +843,14 @@ class Translator:
                 return None
         if q is not None:
             pos, kw = self.args_of(F, n)
+            if (q == 'builtins.setattr' and len(pos) == 3 and F.selfname and isinstance(n.args[0], ast.Name)
+                    and n.args[0].id == F.selfname):
+                # setattr(self, <computed name>, v): a store on the object itself; attribute reads
+                # of this class fall back to "anything stored on self" (dynamic_self_store)
+                if pos[2] is not None:
+                    sv = self.selfvar(F)
+                    self.emit(('Assign', sv, ('EJoin', [sv, pos[2]])))
+                return None
             if q == 'builtins.setattr' and len(pos) == 3:
                 if pos[0] is None:
                     self.fail(F, n, 'setattr on a value without buffers')
@@ -857,7 +910,8 @@ class Translator:
                 F.origin[t] = org if name in self.same_class_methods else None
                 return t
             if name in SUMMARY_METHODS:
-                self.assumed.add(f'summary:method .{name}(): no write to its receiver or arguments; new result')
+                self.assumed.add(f'summary:method .{name}(): no write to its receiver or arguments'
+                                 + ('; new result' if SUMMARY_METHODS[name]['ret'] == 'fresh' else ''))
                 return self.apply_row(F, n, 'photutils.method.' + name, SUMMARY_METHODS[name], recv, pos, kw)
             if name in METHODS:
                 if recv is None:
@@ -893,6 +947,12 @@ class Translator:
             self.assumed.add(f'callable:{name}: {text}')
             args = [v for v in [callee] + pos + list(kw.values()) if v is not None]
             muts, ret = [], 'alias'
+            if isinstance(spec, dict) and 'by_kw' in spec:      # summary chosen by a constant keyword
+                k_ = spec['by_kw']
+                val_ = self.const_kw(n, k_)
+                if val_ == 'dynamic' or val_ not in spec['cases']:
+                    self.fail(F, n, f'callable `{name}`: no summary for {k_}={val_}')
+                spec = spec['cases'][val_]
             if isinstance(spec, dict):
                 if spec.get('when_kw'):          # e.g. copy=False
                     k_, val_ = spec['when_kw']
@@ -1025,7 +1085,7 @@ class Translator:
                 o = self.expr(F, t.value)
                 if o is None:
                     self.fail(F, t, 'attribute store on a value without buffers')
-                if o not in F.containers:
+                if o not in F.containers and o not in self.own_containers:
                     self.emit(('InPlace', o))       # the object itself is modified
                 if v is not None:
                     self.emit(('Assign', o, ('EJoin', [o, v])))
@@ -1044,7 +1104,7 @@ class Translator:
                 self.fail(F, t, 'item store on a value without buffers')
             if o not in F.containers and o not in self.own_containers:
                 self.emit(('InPlace', o))
-            if v is not None and o not in F.arrays:
+            if v is not None and o not in F.arrays and not self.array_index(t.slice):
                 self.emit(('Assign', o, ('EJoin', [o, v])))      # a container / object array keeps a reference
         else:
             self.fail(F, t, f'unsupported assignment target {type(t).__name__}')
@@ -1071,6 +1131,22 @@ class Translator:
             return True          # a new table: setting a column stores (a copy of) the values in it
         return (isinstance(v, ast.Call) and isinstance(v.func, ast.Name)
                 and v.func.id in ('list', 'dict', 'set', 'sorted'))
+
+    @staticmethod
+    def array_index(sl):
+        """Index forms only an ndarray (or Table) accepts - a boolean expression (x[x < c]),
+        `~m`, `a & b`, or a tuple containing a slice / Ellipsis (x[:, 0], x[a:b, c:d]): a store
+        through such an index copies VALUES into the target, it cannot keep a reference."""
+        if isinstance(sl, ast.Compare):
+            return True
+        if isinstance(sl, ast.UnaryOp) and isinstance(sl.op, ast.Invert):
+            return True
+        if isinstance(sl, ast.BinOp) and isinstance(sl.op, (ast.BitAnd, ast.BitOr)):
+            return True
+        if isinstance(sl, ast.Tuple):
+            return any(isinstance(e, ast.Slice) or (isinstance(e, ast.Constant) and e.value is Ellipsis)
+                       for e in sl.elts)
+        return False
 
     def is_numeric_array(self, F, v):
         """Expressions whose value is certainly a numeric ndarray / numpy scalar (never a Python
@@ -1281,23 +1357,65 @@ class Translator:
         prot = [i for nm, i in zip(names, ids) if protect is None or nm in protect]
         return prot, dict(zip(names, ids)), prog
 
-    def methods(self, modname, cname, only, own=()):
+    def methods(self, modname, cname, only, own=(), unprotected=()):
         """IR of selected methods of a class taken alone (no constructor): everything stored on
         `self` is treated as caller-supplied, like the parameters - except the attributes named in
         `own`, which are the object's private cache containers (recorded as an assumption)."""
         self.own_attr_names = tuple(own)
         for nm in own:
             self.assumed.add(f'own:{cname}.{nm} is a private cache container of the object, not caller data')
-        return self.lifecycle(modname, cname, only=tuple(only))
+        prot, params, prog = self.lifecycle(modname, cname, only=tuple(only))
+        drop = {v for k, v in params.items() if k.split('(')[-1].rstrip(')') in unprotected and '(' in k}
+        for nm in unprotected:
+            self.assumed.add(f'unprotected:{cname} parameter `{nm}` is not one of the kinds of object the property protects')
+        return [p for p in prot if p not in drop], params, prog
 
     own_attr_names = ()
     own_containers = frozenset()
+    dynamic_self_store = False
+    display_attrs = frozenset()
 
-    def lifecycle(self, modname, cname, only=None):
+    @staticmethod
+    def class_scan(C):
+        """(does some method call setattr(self, ...)?,  attributes that are ONLY ever assigned a display
+        / comprehension in the whole class: they hold a container created by the object itself)"""
+        dyn = False
+        disp, other = set(), set()
+        for mod, node in C.mro:
+            for fn in node.body:
+                if not isinstance(fn, ast.FunctionDef) or not fn.args.args:
+                    continue
+                me = fn.args.args[0].arg
+                for x in ast.walk(fn):
+                    if (isinstance(x, ast.Call) and isinstance(x.func, ast.Name) and x.func.id == 'setattr' and x.args
+                            and isinstance(x.args[0], ast.Name) and x.args[0].id == me):
+                        dyn = True
+                    tg = []
+                    if isinstance(x, ast.Assign):
+                        tg = [(t, x.value) for t in x.targets]
+                    elif isinstance(x, (ast.AugAssign, ast.AnnAssign)):
+                        tg = [(x.target, None)]
+                    for t, v in tg:
+                        for a in ast.walk(t):
+                            if (isinstance(a, ast.Attribute) and isinstance(a.value, ast.Name) and a.value.id == me
+                                    and isinstance(a.ctx, ast.Store)):
+                                if a is t and v is not None and isinstance(v, (ast.Dict, ast.List, ast.Set, ast.DictComp,
+                                                                                   ast.ListComp, ast.SetComp)):
+                                    disp.add(a.attr)
+                                else:
+                                    other.add(a.attr)
+        return dyn, disp - other
+
+    def lifecycle(self, modname, cname, only=None, own=None):
         """IR of a class life cycle:  __init__ ; Loop (one of the methods / lazy properties)."""
         mod = self.index.mods[modname]
         C = ClassInfo(self, mod, mod.classes[cname])
+        if own is not None:
+            self.own_attr_names = tuple(own)
+            for nm in own:
+                self.assumed.add(f'own:{cname}.{nm} is an object created and owned by the instance, not caller data')
         self.safe_classes = tuple(self.safe_classes) + (C.key,)
+        self.dynamic_self_store, self.display_attrs = self.class_scan(C)
         self.tr_attrs = {}
         self.stack = []
         F = Frame(self, mod, C.node, f'{cname}.', cls=C, selfname='self')
@@ -1323,9 +1441,13 @@ class Translator:
         kind, owner, node = C.member('__init__')
         init = (self.block(lambda: member('__init__', 'method', owner, node))
                 if node is not None and only is None else ('Skip',))
+        if only is not None:
+            for nm in only:
+                if C.member(nm)[2] is None:
+                    raise Untranslatable(f'{cname} has no member {nm}', C.node, str(mod.path.relative_to(self.repo)))
         for name in C.all_members():
             kind, owner, node = C.member(name)
-            if name == '__init__' or kind in ('classattr', None) or name in self.skip_members:
+            if (name == '__init__' and only is None) or kind in ('classattr', None) or name in self.skip_members:
                 continue
             if only is not None and name not in only:
                 continue
@@ -1342,7 +1464,7 @@ class Translator:
         for b in reversed(bodies):
             cur = ('If', b, cur)
         prog = ('Seq', init, ('Loop', cur))
-        if only is not None:
+        if only is not None and tuple(only) != ('__init__',):     # (a constructor starts from an empty object)
             for k, v in self.tr_attrs.items():
                 if k != '$out' and k.split('.self.')[-1] not in self.own_attr_names:
                     params['self:' + k] = v
